@@ -21,10 +21,21 @@ Definition same_keys (a b : list Z) : bool :=
   (Nat.eqb (length a) (length b)) && forallb (fun x => zmem x b) a && forallb (fun x => zmem x a) b.
 
 (* ---------------- mismatch: the model, with the observation as tie oracle ---------------- *)
-Definition obs_evictor (keys : list Z) : evictor :=
+(* [maybe]: the key a store overwrites. Its OLD version may have been among the evicted although the key is
+   present afterwards (the store put the new version there); that reading is tried when the plain one is not
+   a legal eviction. *)
+Definition obs_evictor (maybe : option Z) (keys : list Z) : evictor :=
   fun limit held ents cur =>
     let removed := filter (fun e => negb (zmem (e_key e) keys)) ents in
-    if evict_allowed ents cur (evict_target limit) held (keys_of removed) then Some removed else None.
+    if evict_allowed ents cur (evict_target limit) held (keys_of removed) then Some removed
+    else match maybe with
+         | Some k =>
+             let removed2 := filter (fun e => negb (zmem (e_key e) keys) || (e_key e =? k)) ents in
+             if evict_allowed ents cur (evict_target limit) held (keys_of removed2) then Some removed2 else None
+         | None => None
+         end.
+Definition overwritten_key (o : op) : option Z :=
+  match o with OStore e _ => Some (e_key e) | _ => None end.
 
 (* the operation replaces an existing entry: the byte counter after it is C12's business *)
 Definition ys_overwrite (l : list entry) (ys : list yop) : bool :=
@@ -42,7 +53,7 @@ Fixpoint run_mismatch (b : backend) (s : cstate) (steps : list (op * obs)) : boo
   match steps with
   | [] => false
   | (o, Obs keys bytes stmax ok) :: rest =>
-      match step (obs_evictor keys) b s o with
+      match step (obs_evictor (overwritten_key o) keys) b s o with
       | None => true
       | Some (s1, ok1) =>
           let skipb := op_overwrites s o in
@@ -99,7 +110,13 @@ Definition step_prop (b : backend) (p : pstate) (o : op) (keys : list Z) : bool 
   | OStore e held =>
       let limit := match b with Mem => Z.min (p_limit p) (p_memcap p) | File => p_limit p end in
       let held' := match b with Mem => e_shard e :: held | File => held end in
-      trigger_prop (remove_key (e_key e) (p_ents p)) (p_bytes p) limit held' keys
+      (* a store that overwrites a stored key: whether the OLD version was evicted before being replaced cannot
+         be seen afterwards (the key is present and its old bytes are gone either way), so the statement is judged
+         under both readings and fails only if it fails under both *)
+      let keysA := filter (fun k => negb (k =? e_key e)) keys in   (* the old version was among the evicted *)
+      let keysB := e_key e :: keys in                              (* the old version survived until replaced *)
+      trigger_prop (p_ents p) (p_bytes p) limit held' keysA
+      && trigger_prop (p_ents p) (p_bytes p) limit held' keysB
   | OEvict limit held => evict_prop (p_ents p) (p_bytes p) limit held keys
   | OCycle held ys | OClean held ys =>
       let pop := p_ents p in
